@@ -6,6 +6,8 @@ PROP = {
     "level_note": "Trusts the checker in harness/mon/src/shared/chan.rs, the placement of the H-B scheduling points (used by the sequential queue model to know when the swap-out happens) and vcommon::stamp() (one SeqCst counter: 'return stamp < call stamp' implies real-time precedence). Truncated items are known exactly because the harness supplies its own Channel implementation whose clear() records what it removed.",
     "technique": "runtime monitoring: offline history checker (no-dup, remainder, order, conservation, queue model) over seeded channel scenarios with hook-injected schedules; Miri and ThreadSanitizer lanes run the same monitor",
     "assumptions": [
+        "quiescence step (60% of the histories that keep their receiver): after the last sender operation has returned and before any flush / drop / further send, every accepted item (minus truncations) must have been handed to the processor by the time the receiver has begun 3 further idle waits (counted at the RecvBeforeIdleWait scheduling point, not by the clock); the last operation is delayed at its own lock point (SendLock / TrySendLock) until the receiver has made an empty pass, or the receiver is held between its empty pass and its idle wait; if the receiver does not begin 3 idle waits within a wall-clock watchdog (5 s) the step is inconclusive",
+        "a receiver thread that does not exit within 10 s after the sender was dropped is left behind and the history is inconclusive; after 3 such histories the lane stops and says so",
         "the retry budget is a constant of the channel: it is measured once per run (always-retry batches of several sizes) and a give-up before that many retries counts as a dropped remainder",
         "items still pending at teardown are tolerated only in scenarios that drop the receiver (the exec future) early; after the sender is dropped a live receiver must deliver everything that is queued",
         "the processor only asks for retries of items it was handed (sub-sequences in order); remainders containing foreign items are not generated",
